@@ -51,10 +51,48 @@ def replay_one(item):
             if _OPTS.get('keep_image'):
                 extra['image'] = data
                 extra['wlog'] = wlog
+        m['base'] = 'none'
+        m['basekind'] = _OPTS.get('diff') or 'none'
+        if _OPTS.get('diff'):
+            m['base'] = _base_diff(acts, ev, data)
         ev.append(m)
     t = {'id': tid, 'ev': ev}
     t.update(extra)
     return t
+
+
+SCHED = ('ForceConsistency', 'Query', 'Walk', 'Write')
+
+
+def _base_diff(acts, ev, data):
+    """master the behaviour again without the refused calls (diff='refused') or without the
+    schedule steps and in lazy mode (diff='sched'); compare the bytes."""
+    kind = _OPTS['diff']
+    if kind == 'refused':
+        keep = [a for (a, e) in zip(acts, ev) if e['res'] == 'ok']
+        if len(keep) == len(acts):
+            return 'none'
+    else:
+        keep = []
+        for a in acts:
+            if a['a'] in SCHED:
+                continue
+            if a['a'] == 'New' and a.get('mode') != 'lazy':
+                a = dict(a, mode='lazy')
+            keep.append(a)
+        if keep == acts:
+            return 'none'
+    det.reset()
+    s = Session(_TAB)
+    for a in keep:
+        if s.apply(a) != 'ok':
+            return 'base_step_failed'
+    (wres, base, _) = s.master()
+    if base is None:
+        return 'same' if data is None else 'base_wfail:' + wres
+    if data is None:
+        return 'differs_wfail'
+    return 'same' if base == data else 'differs'
 
 
 def replay_all(tabname, behaviours, opts=None, procs=16):
@@ -99,6 +137,8 @@ def build_input(tab, traces):
             if e['a']['a'] == 'Master':
                 d['wres'] = e['wres']
                 d['ores'] = e['ores']
+                d['base'] = e.get('base', 'none')
+                d['basekind'] = e.get('basekind', 'none')
             ev.append(d)
         out_tr.append({'id': t['id'], 'ev': ev})
     names = [{'id': n, 'iso': [ord(c) for c in m['iso']], 'rr': [ord(c) for c in m['rr']],
